@@ -11,7 +11,7 @@ if hasattr(sys, "set_int_max_str_digits"):
 
 ID = "C21"
 HARNESS = "C21_manifold.cpp"
-EXPLANATION = ("Real integrators (ExplicitEuler, RungeKuttaMerson; more in the thorough tier) advance an unconstrained quaternion body (Ball, Free; "
+EXPLANATION = ("Real integrators (ExplicitEuler, RungeKuttaMerson; RungeKutta3 and Verlet in the thorough tier) advance an unconstrained quaternion body (Ball, Free; "
                "non-spherical inertia, exactly unit initial quaternion) by 1-2 internal steps of SYMBOLIC size with SYMBOLIC initial angular/linear velocity, "
                "and a Pin driven by Motion::Steady / Motion::Sinusoid (position and velocity level) next to a free spring-loaded slider. For every state "
                "returned by stepTo (start state, step states, interpolated report states at symbolic report times) the solver proves: with projection "
@@ -21,9 +21,9 @@ EXPLANATION = ("Real integrators (ExplicitEuler, RungeKuttaMerson; more in the t
                "(Sinusoid/Position) equal the prescribed functions of the returned state's own time, also for interpolated states, and the Steady "
                "mobilizer's q advances by rate * elapsed time.")
 BOUNDS = ("1 quaternion per model (Ball, Free); 1-2 internal steps; free: step size, report offsets, tolerance, initial angular velocity (ExplicitEuler: "
-          "step size, all angular and one linear component; RungeKuttaMerson and the other multi-stage methods: report offsets and tolerance free, step "
+          "step size and angular velocity; RungeKuttaMerson and the other multi-stage methods: report offsets and tolerance free, step "
           "size and velocities at exact base points), prescribed amplitude/phase/rate; initial unit quaternion at 2 (quick) / 4 "
-          "(thorough) exact rational base points; path budget 3 quick / 12 thorough for the tolerance variant")
+          "(thorough) exact rational base points; path budget 2 quick / 10 thorough for the tolerance variant; obligations that are identities (forced projection, prescribed motion) are proved without the path condition; thorough adds RungeKutta3 and Verlet")
 NOT_COVERED = ("position and velocity CONSTRAINT satisfaction (projection onto the constraint manifold runs through LAPACK QTZ factorisation: symbolic values "
                "cannot pass through the external binary, 'shadow != native'); event before-states; CPodes; more than one quaternion (the RMS norm over several "
                "quaternion errors) in the tolerance variant; interpolated states with projection switched off (documented as not projected)")
@@ -33,24 +33,25 @@ ASSUMPTIONS = ["step size in (1/1024, 1), report offset r in (0, h), tolerance i
 def instances(tier, seed):
     th = tier == "thorough"
     out = []
-    integs = ("ExplicitEuler", "RungeKuttaMerson") + (("RungeKutta3", "Verlet", "SemiExplicitEuler2") if th else ())
+    integs = ("ExplicitEuler", "RungeKuttaMerson") + (("RungeKutta3", "Verlet") if th else ())
     for ig in integs:
+        extra = ig in ("RungeKutta3", "Verlet")
         for mob in ("Ball", "Free"):
             for opt in ("force", "tol"):
                 for rep in ("", "interp"):
                     ns = 2 if ig == "ExplicitEuler" else 1
-                    if not th and mob == "Free" and (rep == "interp") and ig != "ExplicitEuler":
+                    if (not th or extra) and mob == "Free" and (rep == "interp") and ig != "ExplicitEuler":
                         continue
-                    if opt == "tol" and mob == "Free" and not th:
+                    if opt == "tol" and mob == "Free" and (not th or extra):
                         continue
                     out.append(dict(name="quat/%s/%s/%s%s" % (mob, ig, opt, "/interp" if rep else ""), args=["quat", mob, ig, opt, str(ns)] + ([rep] if rep else []),
-                                    base_points=(2 if not th else 4) if opt == "force" else 1, paths=1 if opt == "force" else (3 if not th else 12), flips_per_path=3,
+                                    base_points=(2 if (not th or ig != "ExplicitEuler") else 4) if opt == "force" else 1, paths=1 if opt == "force" else (2 if not th else 10), flips_per_path=(2 if not th else 3),
                                     seedcase=(None if ig == "ExplicitEuler" else dict(h=0.5, u0=1.5, u1=-2.0, u2=1.0)),
-                                    max_terms=(3000 if opt == "force" else 40000), abstract_big=True, pc_max_terms=(40 if opt == "force" else 6000), z3_timeout_ms=60000))
+                                    max_terms=(3000 if opt == "force" else 40000), abstract_big=True, pc_max_terms=(1 if opt == "force" else (6000 if ig == "ExplicitEuler" else 1500))))
         for mo in ("steady", "sinP", "sinV"):
             for rep in ("step", "interp"):
-                out.append(dict(name="presc/%s/%s/%s" % (mo, ig, rep), args=["presc", mo, ig, rep], base_points=1 if not th else 3, paths=1, max_terms=4000,
-                                abstract_big=True, pc_max_terms=30, z3_timeout_ms=60000))
+                out.append(dict(name="presc/%s/%s/%s" % (mo, ig, rep), args=["presc", mo, ig, rep], base_points=1 if not th else 2, paths=1, max_terms=4000,
+                                abstract_big=True, pc_max_terms=1))
     return out
 
 
@@ -67,7 +68,7 @@ def free_sets(inst, tr, tier, rng):
     if a[0] == "quat":
         fr = ["h", "r0", "r1", "tol"]
         if a[2] == "ExplicitEuler":
-            fr += ["u0", "u1"] + (["u2", "u3"] if a[3] == "force" else [])
+            fr += ["u0", "u1"] + (["u2"] if a[3] == "force" else [])
         else:
             # multi-stage methods evaluate the rotation of non-unit stage quaternions (one inverse variable per stage): with h or u free the
             # advanced quaternion exceeds the polynomial size budget. Free: report offsets and tolerance; h and u at exact base points.
